@@ -3,6 +3,7 @@ import BeffVerif.Props.C13Inj
 import BeffVerif.Props.C13Tree
 import BeffVerif.Props.C13Rec
 import BeffVerif.Props.C13Names
+import BeffVerif.Props.C13Total
 open BeffVerif.C13
 #print axioms writer_digest_eq_spec
 #print axioms writer_digest_eq_spec_param
@@ -34,3 +35,5 @@ open BeffVerif.C13
 #print axioms BeffVerif.C13N.h256_rename
 #print axioms BeffVerif.C13N.hash256Toks_rename
 #print axioms BeffVerif.C13N.hash32_property_order
+#print axioms BeffVerif.C13T.h256_total
+#print axioms BeffVerif.C13T.hash256Toks_total
